@@ -29,17 +29,20 @@ Id(kd, c) == LET st == {<<k, c[k]>> : k \in {x \in DOMAIN c : c[x] # NONE}} IN <
 \* The root history lives in TLC registers 3 (content -> root) and 4 (root -> content), not in the state:
 \* it spans all behaviours of the run and would otherwise be copied and fingerprinted with every state.
 ASSUME TLCSet(3, <<>>) /\ TLCSet(4, <<>>) /\ TLCSet(5, <<>>)
+\* one root per content, one content per root - over everything seen so far in this run
+RootRule(kd, c, root) ==
+  LET id == Id(kd, c)  ro == TLCGet(3)  co == TLCGet(4) IN
+  /\ (id \in DOMAIN ro => ro[id] = root)              \* the same content never has two roots
+  /\ (root \in DOMAIN co => co[root] = id)            \* the same root never has two contents
+  /\ IF id \in DOMAIN ro THEN TRUE ELSE TLCSet(3, (id :> root) @@ ro)
+  /\ IF root \in DOMAIN co THEN TRUE ELSE TLCSet(4, (root :> id) @@ co)
 \* what every event must show when the content is c (kd, ks, pa: kind, key order and key paths of this behaviour)
 Obs(kd, ks, pa, c) ==
-  LET id == Id(kd, c)  ro == TLCGet(3)  co == TLCGet(4) IN
   /\ E.err = ""
   /\ Len(E.reads) = Len(ks) /\ \A i \in 1..Len(ks) : E.reads[i] = c[ks[i]]      \* TryGet of every key
   /\ "itererr" \notin DOMAIN E
   /\ ToSet(E.shape) = ShapeOf(pa, c)
-  /\ (id \in DOMAIN ro => ro[id] = E.root)              \* the same content never has two roots
-  /\ (E.root \in DOMAIN co => co[E.root] = id)          \* the same root never has two contents
-  /\ IF id \in DOMAIN ro THEN TRUE ELSE TLCSet(3, (id :> E.root) @@ ro)
-  /\ IF E.root \in DOMAIN co THEN TRUE ELSE TLCSet(4, (E.root :> id) @@ co)
+  /\ RootRule(kd, c, E.root)
 
 TReset == /\ Ev("reset")
           /\ kind' = E.kind /\ keys' = E.keys
@@ -74,7 +77,12 @@ TProve == /\ Ev("ProveAll") /\ kv \in avail
           \* "= TRUE": evaluated as one boolean (TLC would otherwise branch on every disjunction inside)
           /\ (\A i \in 1..Len(E.proofs) : ProofOK(E.proofs[i])) = TRUE
           /\ Obs(kind, keys, path, kv) /\ UNCHANGED kv /\ Same
-TraceNext == TReset \/ TPut \/ TRemove \/ TGet \/ THash \/ TCommit \/ TReopen \/ TProve
+\* A run too large for one TLC process is validated in chunks; every chunk's accepted <<kind, reads, root>>
+\* observations are restated as "rootobs" lines and validated together, so that the root rule spans all chunks.
+TRootObs == /\ Ev("rootobs")
+            /\ RootRule(E.kind, [k \in ToSet(E.keys) |-> E.reads[CHOOSE i \in 1..Len(E.keys) : E.keys[i] = k]], E.root)
+            /\ UNCHANGED <<kind, keys, kv, avail, disk>>
+TraceNext == TRootObs \/ TReset \/ TPut \/ TRemove \/ TGet \/ THash \/ TCommit \/ TReopen \/ TProve
 TraceSpec == /\ l = 1 /\ kind = "" /\ keys = <<>> /\ kv = <<>> /\ avail = {} /\ disk = {}
              /\ [][TraceNext]_tvars
 ====
